@@ -214,6 +214,38 @@ def fixed_regressions(with_assert=False):
                                    "src": {"e": "call", "fi": 1, "args": [lit(SI, 0)]}, "cond": {"e": "none"},
                                    "body": prim("si.add", var("c2"), lit(SI, 1))}),
         stmt(pr({"e": "len", "l": var("gm")}))], funs=[gsrc, keep, note]))
+    # P1 (specification witness): iterators in parallel with a filter.  A value the filter rejects ends the round for ALL
+    # iterators (every round steps each of them once and the body runs if the filter holds): with `for i in 1..6 for j in
+    # 10..30 | odd? j` the body sees (2,11) (4,13) (6,15), not (1,11) (2,13) ...  (This is what gen0ForIter does -- a rejected
+    # value branches to the loop's iterate label -- and the reading AldorSem takes of "skips those values"; see DESIGN 11.2.)
+    S1 = lambda t_: {"e": "str", "s": t_}
+    out.append(prog("P1_parallel_iterators_with_filter", [
+        gvar("pl", ["list", SI], {"e": "list", "t": ["list", SI], "args": [lit(SI, 5), lit(SI, 8), lit(SI, 9), lit(SI, 12), lit(SI, 7)]}),
+        stmt({"e": "pfor", "its": [{"x": "pi", "k": "range", "lo": lit(SI, 1), "hi": lit(SI, 6)},
+                                    {"x": "pj", "k": "range", "lo": lit(SI, 10), "hi": lit(SI, 30)}],
+              "filt": prim("si.odd", var("pj")), "body": block(pr(S1("B"), var("pi"), var("pj")))}),
+        stmt({"e": "pfor", "its": [{"x": "pa", "k": "list", "src": var("pl")},
+                                    {"x": "pb", "k": "range", "lo": lit(SI, 1), "hi": lit(SI, 9)},
+                                    {"x": "pc", "k": "list", "src": var("pl")}],
+              "filt": prim("si.odd", var("pc")), "body": block(pr(S1("C"), var("pa"), var("pb"), var("pc")))})]))
+    # M1 (specification witness): a macro redefined at the head of a definition (a constant's value, a function body) has
+    # the new meaning in that definition only -- not after it, and not in a function called from it.  (A block on the right
+    # of `:=` is no scope: there the compiler reports "redefined in the same scope" and the new meaning stays; the family
+    # has local macros at the head of definitions only.)
+    mcall = lambda a_: {"e": "mac", "mi": 1, "t": SI, "args": [a_]}
+    usem = {"name": "usem", "oname": "usem", "ps": ["q"], "pts": [SI], "rt": SI, "pure": True, "body": mcall(var("q"))}
+    locm = {"name": "locm", "oname": "locm", "ps": ["r"], "pts": [SI], "rt": SI, "pure": True,
+            "body": {"e": "lmac", "mi": 1, "t": SI, "mbody": prim("si.sub", var("m1"), lit(SI, 1)),
+                     "body": prim("si.mul", mcall(var("r")), {"e": "call", "fi": 1, "args": [var("r")]})}}
+    out.append(prog("M1_local_macro_scope", [
+        {"d": "var", "x": "k1", "t": SI, "const": True,
+         "init": {"e": "lmac", "mi": 1, "t": SI, "mbody": prim("si.mul", var("m1"), lit(SI, 7)),
+                  "body": prim("si.add", mcall(lit(SI, 3)), {"e": "call", "fi": 1, "args": [lit(SI, 1)]})}},
+        stmt(pr(var("k1"))),
+        stmt(pr(mcall(lit(SI, 3)), {"e": "call", "fi": 1, "args": [lit(SI, 2)]})),
+        stmt(pr({"e": "call", "fi": 2, "args": [lit(SI, 5)]}, mcall(lit(SI, 5))))],
+        funs=[usem, locm], macs=[{"name": "mac1", "ps": ["m1"], "pts": [SI], "rt": SI, "body": prim("si.add", var("m1"), lit(SI, 100))}],
+        aldor_args=["-Mno-warnings"]))
     f4 = {"name": "f4", "ps": ["p5", "p7"], "pts": [SI, SI], "rt": SI, "pure": True,
           "body": {"e": "let", "x": "v8", "t": SI, "v": var("p5"), "body": {"e": "seq", "t": SI, "es": [
               {"e": "asg", "x": "v8", "v": iff(var("g3"), lit(SI, 13), lit(SI, 12), SI)},
